@@ -314,6 +314,13 @@ class BinningConfig(BaseConfig, Immutable):
             This cosmology object is not stored with this instance, but should
             be managed by the top level :obj:`~yaw.Configuration` class.
         """
+        if edges is NotSet and method is NotSet and self.is_custom:
+            if not (zmin is NotSet and zmax is NotSet and num_bins is NotSet):
+                raise ConfigError(
+                    "cannot generate bin edges from custom binning without 'method'"
+                )
+            edges = self.edges  # retain the custom bin edges
+
         if edges is NotSet:
             if method == "custom":
                 raise ConfigError("'method' is 'custom' but no bin edges provided")
